@@ -91,6 +91,14 @@ MIXED = [0, 1, -1, 2.5, "a", "b", "", None, True, False, (1, 2), [1, 2], {"k": 1
 
 
 def random_population(rnd, n):
+    r = rnd.random()
+    if r < 0.05:
+        # the members happen to look like (item, weight) pairs, as in list(variants.items()): they are members all the same
+        return [(rnd.choice(["control", "treatment", None, "c%d" % j]), rnd.choice([1, 3, 2.5, 0, 10])) for j in range(n)]
+    if r < 0.08:
+        return [(j, str(j)) for j in range(n)]
+    if r < 0.1:
+        return range(n)
     pop = [rnd.choice(MIXED) if rnd.random() < 0.7 else f"item{j}" for j in range(n)]
     if n > 2 and rnd.random() < 0.3:
         pop[rnd.randrange(n)] = pop[0]  # duplicate (same object)
